@@ -10,7 +10,8 @@
 
    _partial = stated for less than the property says; what is missing is named at the theorem. *)
 From Coq Require Import List NArith Bool.
-From GY Require Import Model.Schema Spec.C08 Proofs.DeviationProofs.
+From GY Require Import Model.Schema Spec.C08 Proofs.DeviationStripProofs Proofs.DeviationProofs.
+From GY Require Spec.C04.
 Import ListNotations.
 Local Open Scope N_scope.
 
@@ -29,7 +30,7 @@ Proof. exact set_agree. Qed.
    library declines with an error; [known_delete_absent_bound]: KNOWN_FINDINGS sig=delete.absent-bound) *)
 Theorem C08_T1_delete_partial : forall dv st,
   kind_of (dv_kind dv) = Some DKDelete -> in_scope dv = true ->
-  refused st dv = false -> known_delete_absent_bound st dv = false -> dflt_ok (ts_node st) ->
+  refused st dv = false -> known_delete_absent_bound st dv = false ->
   match spec_edits DKDelete st (named_props dv) with
   | Some st' => apply_delete dv (ts_node st) = (ts_node st', false) /\ step_rel st st'
   | None => snd (apply_delete dv (ts_node st)) = true
@@ -38,12 +39,12 @@ Proof. exact del_agree. Qed.
 
 (* every list of deviate statements on a target that exists, in written order: same node, same
    attached/removed verdict, same forest, same error verdict.  Hypotheses: sibling names are distinct where
-   the target hangs (C04 invariant), a node other than a leaf-list has at most one default, the option is
-   not combined with a module root as target, and the run stays inside the claim ([claimed]).
-   _partial because [claimed] excludes KNOWN_FINDINGS sig=delete.absent-bound. *)
+   the target hangs (holds in every forest Process builds: C08_T1_pass_partial below takes it from C04's tree
+   invariant), the option is not combined with a module root as target, and the run stays inside the claim
+   ([claimed]).  _partial because [claimed] excludes KNOWN_FINDINGS sig=delete.absent-bound. *)
 Theorem C08_T1_agreement_partial : forall ign F p cur dvs err hmin hmax,
   locate_pos F p = Some cur ->
-  parent_nodup F p -> dflt_ok cur -> (ign = true -> snd p <> []) ->
+  parent_nodup F p -> (ign = true -> snd p <> []) ->
   claimed is_builtin ign (removable p) (init_state cur hmin hmax) dvs = true ->
   match spec_apply_all is_builtin ign (removable p) (init_state cur hmin hmax) dvs with
   | Some st' =>
@@ -70,6 +71,27 @@ Theorem C08_T1_module_partial : forall SC ign m devs F err ws,
   | None => snd (apply_deviations SC ign F err m devs) = true \/ any_deviate_err devs = true
   end.
 Proof. exact module_agree. Qed.
+
+(* the whole deviation pass on a forest that satisfies the tree invariant of C04 (which the pass keeps): the
+   hypotheses about sibling names are gone; what remains ([jobs_claimed]) is the claim itself and "the option is
+   not combined with a module root as target", at every deviation in the forest of its moment *)
+Theorem C08_T1_pass_partial : forall SC ign s js F err ws,
+  C04.ForestInv s F -> jobs_claimed SC ign F js ws ->
+  match spec_pass SC ign F js ws with
+  | Some F' => run_jobs SC ign (F, err) js = (F', err) /\ jobs_deviate_err js = false
+  | None => snd (run_jobs SC ign (F, err) js) = true \/ jobs_deviate_err js = true
+  end.
+Proof. exact jobs_agree. Qed.
+
+(* Process itself: if the modules WITHOUT their deviation statements yield F3, then Process with them returns
+   exactly what the reference pass makes of F3 -- the forest it computes, or an error where it says "must be
+   reported" *)
+Theorem C08_T1_process_partial : forall SC ic ign order F3 ws,
+  existsb derr SC = false ->
+  Process (strip_devs SC) ic ign order = ROk F3 ->
+  jobs_claimed SC ign F3 (jobs SC order) ws ->
+  Process SC ic ign order = match spec_pass SC ign F3 (jobs SC order) ws with Some F' => ROk F' | None => RErr end.
+Proof. exact Process_agrees_without. Qed.
 
 (* a statement the library cannot read is exactly one the reference rejects before looking at the target *)
 Theorem C08_T1_unreadable : forall dv,
@@ -140,20 +162,23 @@ Theorem C08_T2_deviation_forest : forall SC ign F err m path dvs p F1 cur,
   fst (apply_deviations SC ign F err m [(path, dvs)]) = deviation_forest ign F1 p cur dvs.
 Proof. exact apply_deviations_one. Qed.
 
-(* the whole deviation pass (all deviations of all modules, in the order visited): positions that are not
-   comparable with any target found keep their node.  Hypothesis [jobs_pure]: no lookup of the pass creates
-   an rpc input/output on demand (Find does that for `input`/`output` steps of an rpc written without them). *)
+(* a path lookup changes the forest only by creating the rpc input/output nodes it names where the rpc is written
+   without them ([Find_created]: their positions); every position not comparable with one of those keeps its node *)
+Theorem C08_T2_lookup_frame : forall SC F ctx start name q,
+  (forall c, In c (Find_created SC F ctx start name) -> ~ pcomparable c q) ->
+  locate_pos (snd (Find SC F ctx start name)) q = locate_pos F q.
+Proof. exact Find_frame. Qed.
+
+(* the whole deviation pass (all deviations of all modules, in the order visited): a position that is not
+   comparable with anything a deviation touches -- its target, an input/output node its path creates
+   ([jobs_touched]) -- keeps its node, literally.  No hypothesis. *)
 Theorem C08_T2_frame_pass : forall SC ign js F err q,
-  jobs_pure SC ign F js ->
-  (forall p, In p (job_targets SC ign F js) -> ~ pcomparable p q) ->
+  (forall p, In p (jobs_touched SC ign F js) -> ~ pcomparable p q) ->
   locate_pos (fst (run_jobs SC ign (F, err) js)) q = locate_pos F q.
 Proof. exact jobs_frame. Qed.
 
-(* Process: a clean result is the forest built before the deviation pass ([pre_dev]: includes, ToEntry,
-   augments, choice fix-up; it does not look at the option) changed by the pass only.
-   _partial: not proved that [pre_dev] of a module set equals the result of Process on the same modules with
-   the deviation statements (or the deviating modules) left out -- the with/without comparison is made on the
-   implementation by the check (metamorphic oracle). *)
+(* Process = the stages before the deviation pass ([pre_dev]: includes, ToEntry, augment rounds, choice fix-up,
+   reporting pass; they do not look at the option) followed by the pass *)
 Theorem C08_T2_process_split : forall SC ic ign order,
   Process SC ic ign order =
   match pre_dev SC ic order with
@@ -162,13 +187,29 @@ Theorem C08_T2_process_split : forall SC ic ign order,
   end.
 Proof. exact Process_split. Qed.
 
-Theorem C08_T2_frame_process_partial : forall SC ic ign order F4,
+(* nothing before the pass reads a deviation statement (apart from rejecting unreadable ones): the forest handed to
+   the pass is what Process yields for the same modules without their deviation statements *)
+Theorem C08_T2_without_deviations : forall SC ic ign order,
+  existsb derr SC = false ->
+  Process (strip_devs SC) ic ign order =
+  match pre_dev SC ic order with
+  | None => RErr
+  | Some (F3, e3) => if e3 then RErr else ROk F3
+  end.
+Proof. exact Process_strip. Qed.
+
+(* the frame of the property: after a clean Process every node that no deviation touches is identical to what the
+   same modules yield without the deviation statements.
+   (Not proved: the variant that removes whole modules consisting of deviations only.  Removing a module changes
+   the fuel of every bounded recursion of the model and the swap-remove order of the augment loop; equality would
+   need fuel-sufficiency of all of them and C07's order independence.  The check compares the implementation with
+   and without the deviating MODULES.) *)
+Theorem C08_T2_frame_process : forall SC ic ign order F4,
   Process SC ic ign order = ROk F4 ->
-  exists F3, pre_dev SC ic order = Some (F3, false) /\
-    (jobs_pure SC ign F3 (jobs SC order) ->
-     forall q, (forall p, In p (job_targets SC ign F3 (jobs SC order)) -> ~ pcomparable p q) ->
-               locate_pos F4 q = locate_pos F3 q).
-Proof. exact Process_frame. Qed.
+  exists F3, Process (strip_devs SC) ic ign order = ROk F3 /\
+    forall q, (forall p, In p (jobs_touched SC ign F3 (jobs SC order)) -> ~ pcomparable p q) ->
+              locate_pos F4 q = locate_pos F3 q.
+Proof. exact Process_frame_without. Qed.
 
 (* ================================================================== T3: IgnoreDeviateNotSupported *)
 
@@ -326,19 +367,23 @@ Proof. vm_compute. reflexivity. Qed.
 (* the hypotheses of T1 are satisfiable: the whole run above is inside the claim *)
 Example C08_ex_module_claimed : module_claimed SC1 false F3_1 (mD devs1) ws1 devs1.
 Proof.
-  unfold module_claimed, deviation_claimed, parent_nodup, dflt_ok.
+  unfold module_claimed, deviation_claimed, parent_nodup.
   vm_compute.
   repeat split; try discriminate;
     try (intros pe d H1 H2; inversion H1; subst; inversion H2; subst;
-         repeat constructor; cbn; intuition discriminate);
-    try (right; repeat constructor); try (left; reflexivity).
+         repeat constructor; cbn; intuition discriminate).
 Qed.
+Example C08_ex_jobs_claimed : jobs_claimed SC1 false F3_1 (jobs SC1 order1) ws1.
+Proof. unfold jobs_claimed, job_claimed. vm_compute. repeat split; discriminate. Qed.
+Example C08_ex_spec_pass : spec_pass SC1 false F3_1 (jobs SC1 order1) ws1 = Some F4_1.
+Proof. vm_compute. reflexivity. Qed.
+(* ... and F3_1 is what the modules yield without their deviation statements *)
+Example C08_ex_without : Process (strip_devs SC1) false false order1 = ROk F3_1 /\ existsb derr SC1 = false.
+Proof. vm_compute. split; reflexivity. Qed.
 
-(* the frame hypotheses are satisfiable: no lookup creates anything, and the leaf /b:e/b:x -- same name as a
-   target, other container -- is not comparable with any target *)
-Example C08_ex_jobs_pure : jobs_pure SC1 false F3_1 (jobs SC1 order1).
-Proof. vm_compute. repeat split. Qed.
-Example C08_ex_targets : job_targets SC1 false F3_1 (jobs SC1 order1) =
+(* what the pass touches; the leaf /b:e/b:x -- same name as a target, other container -- is not comparable with
+   any of it and keeps its node *)
+Example C08_ex_touched : jobs_touched SC1 false F3_1 (jobs SC1 order1) =
   [([98], [SChild [99]; SChild [120]]); ([98], [SChild [99]; SChild [108]]); ([98], [SChild [99]; SChild [109]])].
 Proof. vm_compute. reflexivity. Qed.
 Example C08_ex_frame : locate_pos F4_1 ([98], [SChild [101]; SChild [120]]) = locate_pos F3_1 ([98], [SChild [101]; SChild [120]]).
@@ -346,6 +391,22 @@ Proof. vm_compute. reflexivity. Qed.
 Example C08_ex_incomparable :
   ~ pcomparable ([98], [SChild [99]; SChild [120]]) ([98], [SChild [101]; SChild [120]]).
 Proof. intros [_ [H _]]. discriminate. Qed.
+
+(* a deviation path through the input of an rpc written without one: the lookup creates the node, which is then
+   touched: module r { rpc p; }  deviation /r:p/r:input { deviate add { config false; } } *)
+Definition mR : module :=
+  {| m_name := [114]; m_prefix := [114]; m_ns := [119]; m_belongs := None; m_imports := []; m_includes := [];
+     m_body := [DRpc false [112] None None]; m_augments := [];
+     m_deviations := [([47;114;58;112;47;114;58;105;110;112;117;116],
+                       [{| dv_kind := s_add; dv_cfg := TSFalse; dv_mand := TSUnset; dv_default := None; dv_min := None;
+                           dv_max := None; dv_units := None; dv_type := None |}])] |}.
+Example C08_ex_created :
+  match pre_dev [mR] false [[114]] with
+  | Some (F3, _) => jobs_touched [mR] false F3 (jobs [mR] [[114]])
+  | None => []
+  end = [([114], [SChild [112]; SIn]); ([114], [SChild [112]; SIn])] /\
+  Process [mR] false false [[114]] <> RErr.
+Proof. vm_compute. split; [reflexivity|discriminate]. Qed.
 
 (* written order matters: add before delete is reported *)
 Example C08_ex_order :
